@@ -86,7 +86,7 @@ def draw_structure(rng):
     def attr_spec():
         r = rng.random()
         if r < 0.2:
-            return {"fixed": rng.choice([1, "x", True, 3.5])}
+            return {"fixed": rng.choice([1, "x", True, 3.5, None, 0, ""])}
         if r < 0.3:
             return {"fixed": rng.choice(["{idx}", "n{idx}", "{hier_idx}", "p{hier_idx}-{idx}"])}
         p = rng.choice([1.0, 1.0, 0.0, 0.3, 0.5, 0.9])
@@ -132,6 +132,10 @@ def draw_structure(rng):
     for t in types:
         if rng.random() < 0.5:
             desc["types"][t] = attrs(2)
+            if rng.random() < 0.3:
+                desc["types"][t][":count"] = count_spec()  # a default count for this type
+    if "*" in desc["types"] and rng.random() < 0.15:
+        desc["types"]["*"][":count"] = count_spec()
 
     def rel(children):
         out = {}
@@ -236,7 +240,8 @@ def check_value(name, a, val, present, macros, fail):
         if isinstance(exp, str):
             exp = exp.format(**macros)
         if not present or val != exp or type(val) is not type(exp):
-            fail("attr-fixed", f"attribute {name} is {val!r}, definition says {exp!r}")
+            fail("attr-fixed", f"attribute {name} is {val!r} ({'present' if present else 'absent'})"
+                               f", definition says {exp!r}")
         return
     p = float(a["p"])
     if not present:
